@@ -51,6 +51,7 @@ func main() {
 	arpOut := flag.String("arp-out", "", "output Lean file for the translated ARP spoofing handler (F15, Gen/ArpGen.lean); default: not written")
 	tablesOut := flag.String("tables-out", "", "output Lean file for the translated host/MAC table operations (F14, Gen/TablesGen.lean); default: not written")
 	pingOut := flag.String("ping-out", "", "output Lean file for the translated ping / echo notification code (F17, Gen/PingGen.lean); default: not written")
+	sessLifeOut := flag.String("sesslife-out", "", "output Lean file for the translated session life cycle (F17, Gen/SessLifeGen.lean); default: not written")
 	icmp6Out := flag.String("icmp6-out", "", "output Lean file for the translated ICMPv6 / NDP spoofing handler (F15, Gen/Icmp6Gen.lean); default: not written")
 	flag.Parse()
 	cfg := &packages.Config{Mode: packages.NeedName | packages.NeedFiles | packages.NeedSyntax | packages.NeedTypes | packages.NeedTypesInfo | packages.NeedImports | packages.NeedDeps, Dir: *repo, Tests: false}
@@ -144,6 +145,15 @@ func main() {
 		var pb strings.Builder
 		pingFacts(root, &pb)
 		if err := os.WriteFile(*pingOut, []byte(pb.String()), 0o644); err != nil {
+			fmt.Fprintln(os.Stderr, err)
+			os.Exit(1)
+		}
+	}
+	if *sessLifeOut != "" {
+		fset = pkgs[0].Fset
+		var sb strings.Builder
+		sessLifeFacts(root, &sb)
+		if err := os.WriteFile(*sessLifeOut, []byte(sb.String()), 0o644); err != nil {
 			fmt.Fprintln(os.Stderr, err)
 			os.Exit(1)
 		}
